@@ -12,14 +12,23 @@ new count).
   anything else (gauge, histogram, user metric) carrying an opaque tag.
 * `Instant::now()` = the value of a monotone clock supplied by the caller (`Nat`); the schedule machine
   uses the step index.
-* counts are `Nat` (assumption recorded in the trusted base: no `u64` overflow in `count + value`; with
-  overflow checks on, that addition panics inside the critical section — the calling thread's call is
-  lost with it, the stored state is unchanged).
+* counts are `Nat` in the schedule machine; the `u64` addition `count + value` is modelled separately by
+  `incAtomic64` (overflow: panic inside the critical section with overflow checks on — the call is lost,
+  the stored state unchanged — wrap-around without). `Props/C16.lean` proves that under the hypothesis
+  `initial + Σ increments < 2^64` no addition of any schedule overflows, so the two coincide; beyond that
+  bound the sum law cannot hold for ANY `u64` counter and is out of the property's scope.
 * every method takes the lock with `lock().unwrap_or_else(PoisonError::into_inner)` (second `fix:` commit):
   a panic inside a critical section (the overflow above, a user `Metric::value()` that panics during
   `snapshot()`/`to_json()`) does not disable the collector for later calls. At the pinned commit it did
   (`lock().unwrap()`): every later call, including `record_metrics_start` inside `run_collect`, panicked
   (harness case `MPOISON`). The model has no poisoned state, which matches the current code only.
+
+* `toJson` is `to_json()` WITH values: one member per stored metric, then `Map::insert("execution_time_ms", …)`
+  when both stamps are present — which REPLACES a user metric of that name (known finding
+  `C16-json-exec-time-shadows-user-metric`; `jsonKeys` is its key list, `Props/C16.lean: toJson_keys`).
+* user code that runs inside a critical section (`Metric::name()` in `register`, `value()`/`description()` in
+  `snapshot`/`to_json`/`print`, `Drop` of a replaced metric) is NOT modelled beyond "it may panic and the
+  collector survives" (`MPOISON`); `print` only writes to stdout (one lock acquisition, in `lockSites`).
 
 `incAtomic` is the current `increment_counter` (after the `fix:` commit: read-modify-write under ONE lock);
 `Legacy.incSplit` is the pinned-commit code (read under one lock, `drop(inner)`, then `set_counter` under a
@@ -86,6 +95,50 @@ def jsonKeys (c : Collector) : List String :=
   if c.start.isSome && c.stop.isSome then
     (if ks.contains execKey then ks else ks ++ [execKey])
   else ks
+
+/-- one member of the object returned by `to_json()` -/
+inductive JsonEntry
+  /-- `{"value": metric.value() [, "description": …]}` of a stored metric -/
+  | metric (v : MetricVal)
+  /-- `{"value": end.duration_since(start).as_millis(), "description": "Total pipeline execution time in milliseconds"}` -/
+  | execTime (d : Nat)
+  deriving DecidableEq, Repr
+
+/-- `serde_json::Map::get` -/
+def getJ (k : String) : List (String × JsonEntry) → Option JsonEntry
+  | [] => none
+  | (k', v) :: r => if k' = k then some v else getJ k r
+
+/-- `serde_json::Map::insert` (replaces the value of an equally named member) -/
+def putJ (k : String) (v : JsonEntry) : List (String × JsonEntry) → List (String × JsonEntry)
+  | [] => [(k, v)]
+  | (k', v') :: r => if k' = k then (k, v) :: r else (k', v') :: putJ k v r
+
+/-- `to_json()` with its VALUES: one member per stored metric, then — when both stamps are present —
+    `metrics_json.insert("execution_time_ms", …)`, which REPLACES a stored metric of that name
+    (src/metrics.rs:266-275: the user's metric `execution_time_ms` disappears from the export). -/
+def toJson (c : Collector) : List (String × JsonEntry) :=
+  let base := c.metrics.map (fun kv => (kv.1, JsonEntry.metric kv.2))
+  match c.start, c.stop with
+  | some s, some e => putJ execKey (.execTime (e - s)) base
+  | _, _ => base
+
+/-- `u64` -/
+def u64Bound : Nat := 2 ^ 64
+
+/-- `increment_counter` with the `u64` addition `counter.count + value` made explicit. `checks` = the
+    crate is compiled with overflow checks (dev/test profile). On overflow the addition panics INSIDE the
+    critical section (`none`: the call is lost, the stored state is unchanged, and — since the second
+    `fix:` commit — the collector stays usable); without overflow checks it wraps. Whenever
+    `n + v < 2^64` this is `incAtomic` (`incAtomic64_eq_incAtomic`). -/
+def incAtomic64 (checks : Bool) (k : String) (v : Nat) (c : Collector) : Option Collector :=
+  match lookup k c.metrics with
+  | some (.counter n) =>
+      if n + v < u64Bound then some (insertSec k (.counter (n + v)) c)
+      else if checks then none
+      else some (insertSec k (.counter ((n + v) % u64Bound)) c)
+  | some (.other _) => some c
+  | none => some (insertSec k (.counter v) c)
 
 /-- current `increment_counter(name, value)` — ONE critical section: look the metric up; a counter is
     replaced by a counter with the sum; a metric of another type is left alone; a missing name is
@@ -280,5 +333,12 @@ def runCollect {γ χ ε ρ} (build : γ → Except ε χ) (exec : χ → Except
   | .ok chain =>
     let r := exec chain
     (r, p1.recordMetricsEnd t1)
+
+/-- the pipeline can be run again: `run_collect` twice in a row (clock readings `t0 ≤ t1 ≤ t2 ≤ t3`) -/
+def runCollectTwice {γ χ ε ρ} (build : γ → Except ε χ) (exec : χ → Except ε ρ) (t0 t1 t2 t3 : Nat) (p : Pipe γ) :
+    Except ε ρ × Except ε ρ × Pipe γ :=
+  let r1 := runCollect build exec t0 t1 p
+  let r2 := runCollect build exec t2 t3 r1.2
+  (r1.1, r2.1, r2.2)
 
 end IB.Metrics
